@@ -964,7 +964,14 @@ func init() {
 			map[string]int{"grant": 10, "getonly": 3, "deny": 5, "denied": 3, "err": 2, "timeout": 2})},
 		Config:   accessConfig,
 		Monitors: func() []Monitor { return []Monitor{NewMonC06()} },
-		Trigger:  triggerRevived,
+		End: func(w *World) {
+			for _, m := range w.Monitors {
+				if c, ok := m.(*MonC06); ok {
+					c.CheckStalled(w)
+				}
+			}
+		},
+		Trigger: triggerRevived,
 	})
 }
 
